@@ -4,10 +4,15 @@ import json, os
 V = os.path.dirname(os.path.dirname(os.path.abspath(__file__)))
 S = os.path.join(V, "seeded")
 rows = []
+dirs = []
 for pid in sorted(os.listdir(S)):
     d = os.path.join(S, pid)
-    if not os.path.isdir(d):
-        continue
+    if os.path.isdir(d):
+        dirs.append((pid, d))
+        for sub in sorted(os.listdir(d)):
+            if sub.startswith("r") and sub[1:].isdigit() and os.path.isdir(os.path.join(d, sub)):
+                dirs.append((pid + "/" + sub, os.path.join(d, sub)))
+for pid, d in dirs:
     meta = []
     try:
         meta = json.load(open(os.path.join(d, "meta.json")))
